@@ -1669,10 +1669,10 @@ class Fxp():
     # reset
     def reset(self):
         #status (overwrite)
-        self.status = {
+        self.status.update({
             'overflow': False,
             'underflow': False,
-            'inaccuracy': False}
+            'inaccuracy': False})
 
     def _convert_op_input_value(self, x, op_input_size=None):
         if not isinstance(x, Fxp):
